@@ -427,6 +427,9 @@ def check_C15(ctx):
     # odd revision populations (status naming a revision that is gone or foreign, squatters, ties) must not crash it either
     snap_trace(ctx, "history", "history", 2, 2, 5, 40000 if q else 600000, ["P_C15"], 41)
     snap_trace(ctx, "own-revs", "own-revs", 2, 2, 5, 10000 if q else 0, ["P_C15"], 42)
+    # nor must an API failure, not even one that coincides with the set or the pod vanishing from the informer cache
+    snap_trace(ctx, "evict-pods", "evict-pods", 2, 3, 5, 30000 if q else 500000, ["P_C15"], 43)
+    snap_trace(ctx, "evict-claims", "evict-claims", 2, 3, 5, 20000 if q else 300000, ["P_C15"], 44)
     ctx.add_samples(sh1, 2, lambda r: r["sn"]["set"][5] not in ("RollingUpdate", "OnDelete"))
     ctx.add_samples(sh1, 1, lambda r: r["sn"]["set"][8] < 0)
     ctx.assumptions.append("the lattice is built from the shapes manifests/crd.v1.yaml admits (replicas and revisionHistoryLimit always "
@@ -441,7 +444,9 @@ def check_C09(ctx):
     n = 1 if q else 12
     shs = []
     for k, (dom, cnt) in enumerate([("faults-pods", 30000), ("faults2-pods", 20000), ("faults-history", 20000), ("faults2-history", 20000),
-                                    ("faults-own-pods", 8000), ("faults-own-revs", 8000), ("faults-claims", 15000)]):
+                                    ("faults-own-pods", 8000), ("faults-own-revs", 8000), ("faults-claims", 15000),
+                                    # a failed call that coincides with the object vanishing from the informer cache
+                                    ("evict-pods", 15000), ("evict-claims", 15000)]):
         sh, _ = snap_trace(ctx, dom, dom, 2, 2, 5, cnt * n, ["P_C09"], 60 + k)
         shs.append(sh)
     ctx.add_samples(shs[0], 1, lambda r: r["res"] == "err")
